@@ -2,10 +2,12 @@ package main
 
 import (
 	"encoding/json"
+	"errors"
 	"os"
 	"sort"
 
 	"github.com/nautilus/gateway"
+	"github.com/nautilus/graphql"
 )
 
 func sortStrings(s []string) { sort.Strings(s) }
@@ -25,3 +27,19 @@ func (quietLogger) Info(args ...interface{})                                {}
 func (quietLogger) Warn(args ...interface{})                                {}
 func (q quietLogger) WithFields(fields gateway.LoggerFields) gateway.Logger { return q }
 func (quietLogger) QueryPlanStep(step *gateway.QueryPlanStep)               {}
+
+// countErrors flattens a graphql.ErrorList (nested lists included) to its number of entries
+func countErrors(err error) int {
+	if err == nil {
+		return 0
+	}
+	var el graphql.ErrorList
+	if errors.As(err, &el) {
+		n := 0
+		for _, e := range el {
+			n += countErrors(e)
+		}
+		return n
+	}
+	return 1
+}
